@@ -2,7 +2,6 @@
 
 import numpy as np
 
-from toqito.channel_ops import kraus_to_choi
 from toqito.channel_props import is_completely_positive, is_trace_preserving
 
 
@@ -73,7 +72,9 @@ def is_quantum_channel(
     # If the variable `phi` is provided as a list, we assume this is a list
     # of Kraus operators.
     if isinstance(phi, list):
-        phi = kraus_to_choi(phi)
+        # Trace preservation is decided on the Kraus operators themselves: the Choi matrix alone does not
+        # determine the input/output dimensions when they differ.
+        return is_completely_positive(phi, rtol, atol) and is_trace_preserving(phi, rtol, atol)
 
     # A valid quantum channel is a superoperator that is both completely
     # positive and trace-preserving.
